@@ -186,3 +186,37 @@ def per_unit_ll(target='le', workdir=None, repo=None):
         link_ll([b], o)
         outs.append(o)
     return list(zip(units, outs))
+
+
+OPT = 'opt-14'
+
+
+def build_example_ir(target_name, workdir=None, repo=None):
+    """SSA-form IR (mem2reg) of one example executable: its own sources plus the
+    static example library it links.  Library functions stay external."""
+    repo = repo or REPO
+    workdir = workdir or scratch()
+    t = cmake_targets(repo)
+    if target_name not in t or t[target_name]['kind'] != 'exe':
+        raise BuildError('executable target %s not found in CMakeLists.txt' % target_name)
+    srcs = list(t[target_name]['sources'])
+    for l in t[target_name]['links']:
+        if l in t and t[l]['kind'] == 'static':
+            srcs += t[l]['sources']
+    incs = [os.path.join(repo, i) for i in (t[target_name]['includes'] or ['examples', 'include'])]
+    paths = [os.path.join(repo, s) for s in srcs]
+    for p in paths:
+        if not os.path.exists(p):
+            raise BuildError('example source %s is missing' % p)
+    out = os.path.join(workdir, 'ex_' + target_name)
+    bcs = compile_units(paths, out, target='le', std=t['__std__'], includes=incs, repo=repo,
+                        extra=['-Xclang', '-disable-O0-optnone'])
+    linked = os.path.join(out, 'linked.bc')
+    rc, so, se = run([LLVM_LINK, '-o', linked] + bcs)
+    if rc != 0:
+        raise BuildError('llvm-link failed for %s:\n%s' % (target_name, se[-2000:]))
+    ll = os.path.join(out, 'ssa.ll')
+    rc, so, se = run([OPT, '-passes=mem2reg', '-S', linked, '-o', ll])
+    if rc != 0:
+        raise BuildError('opt mem2reg failed for %s:\n%s' % (target_name, se[-2000:]))
+    return ll, srcs
